@@ -1,0 +1,12 @@
+//go:build verif
+// +build verif
+
+package fastgo
+
+import "github.com/intel/fastgo/internal/cpu"
+
+// VerifArchLevel reports the acceleration level in effect (verif builds only).
+func VerifArchLevel() int { return cpu.ArchLevel }
+
+// VerifHostLevel reports the level detected for the host CPU (verif builds only).
+func VerifHostLevel() int { return cpu.HostLevel }
